@@ -148,9 +148,9 @@ fn parse_dot(text: &str) -> Result<Dot, String> {
         if let Some(a) = arrow {
             let u = head[..a].trim().trim_matches('"').parse::<usize>().map_err(|_| format!("edge statement {st:?}"))?;
             let v = head[a + 2..].trim().trim_matches('"').parse::<usize>().map_err(|_| format!("edge statement {st:?}"))?;
-            dot.edges.push((crate::keys::kout(u), crate::keys::kout(v), attrs));
+            dot.edges.push((crate::keys::kout_raw(u), crate::keys::kout_raw(v), attrs));
         } else if let Ok(k) = head.trim_matches('"').parse::<usize>() {
-            dot.nodes.push((crate::keys::kout(k), attrs));
+            dot.nodes.push((crate::keys::kout_raw(k), attrs));
         } else if head.contains('=') {
             dot.graph_attrs.extend(parse_attrs(head)?);
         } else {
